@@ -14,3 +14,13 @@ PROPS['C04'] = dict(
     trusted_base=['oracle hypotheses train_ok / curve_ok (positive sorted consumption table, non-negative sorted charge curve, positive curve step): re-established for the mechatronics of each generated world by the harness'],
     assumptions=['one energy type per vehicle', 'floating point modelled as exact rationals (DESIGN §8)'],
 )
+
+PROPS['C08'] = dict(
+    props_file='Props/C08.v',
+    kernels=[],
+    step_runs={Q: [('rawops', 60, 40), ('generic', 120, 30)], T: [('rawops', 600, 60), ('rawmix', 300, 40), ('generic', 1500, 40)]},
+    known_keys={'location_index_mismatch': ['kind'], 'search_index_mismatch': ['kind']},
+    rule='seeded histories of raw add/modify/remove/pop operations on all four entity kinds (re-adds of present ids, moves inside / across / back between search cells, missing ids) plus generic step histories; non-trivial = contains both an accepted and a refused operation',
+    trusted_base=['h3.h3_to_parent is an arbitrary function `e_parent` in the theorem'],
+    assumptions=['geofence constant True (both road networks at this commit)'],
+)
